@@ -6,23 +6,12 @@
 (* SAME monitor actions that judge the traces of the real code, so         *)
 (* "(D) refines (P)" is the invariant bad = "" (Ok).  Digests are compared  *)
 (* inside this module (the monitor only learns same / other).              *)
-(* ConfsOf builds the configuration space of a cfg.                        *)
+(* SensibleConfs is the configuration space of a cfg.                      *)
 (***************************************************************************)
 EXTENDS Referrers, ReferrersProp
 CONSTANTS Modes, Caches, Pages, TagDels, SubjSel
 
-\* subject maps explored: "ror" a3 names a1 (referrer of a referrer), "same" all three name one
-\* subject, "split" a2 names the absent subject s2, "all" every admissible map
-SubjOf(sel) == CASE sel = "ror"   -> {[a \in Arts |-> IF a = "a3" THEN "a1" ELSE "s1"]}
-                 [] sel = "same"  -> {[a \in Arts |-> "s1"]}
-                 [] sel = "split" -> {[a \in Arts |-> IF a = "a2" THEN "s2" ELSE "s1"]}
-                 [] sel = "all"   -> SubjMaps
-ConfsOf == {[mode |-> m, cache |-> c, page |-> g, tagdel |-> t, subj |-> sm] :
-              m \in Modes, c \in Caches, g \in Pages, t \in TagDels, sm \in UNION {SubjOf(x) : x \in SubjSel}}
-\* paging only matters with the API, the cache and tag delete only for registries
-SensibleConfs == {c \in ConfsOf : /\ (c.mode # "api" => c.page = 0)
-                                  /\ (c.mode = "oci" => c.cache = 0 /\ c.tagdel = 1)
-                                  /\ (c.mode = "api" => c.tagdel = 1)}
+SensibleConfs == ConfSpace(Modes, Caches, Pages, TagDels, SubjSel)
 
 P1 == <<"p1">>
 P2 == <<"p1", "p2">>
